@@ -190,6 +190,10 @@ def install():
     _bin("logaddexp", "logaddexp(x,y) = log(exp(x)+exp(y))", lambda x, y: (S.L(x).exp() + S.L(y).exp()).log())
     _bin("logaddexp2", "logaddexp2(x,y) = log2(2**x + 2**y)", lambda x, y: (S.L(x).exp2() + S.L(y).exp2()).log2())
     _bin("float_power", "float_power(x,y) = x**y", lambda x, y: x ** y)
+    _bin("arctan2", "element-wise arctan2 (also for Python-number first operands)", lambda y, x: S.L(y).arctan2(S.L(x)))
+    _bin("hypot", "hypot(x,y) = sqrt(x^2+y^2)", lambda x, y: S.L(x).hypot(S.L(y)))
+    _bin("fmod", "fmod(x,y) = x - y*trunc(x/y)", lambda x, y: S.L(x) - S.L(y) * (S.L(x) / S.L(y)).trunc())
+    _bin("copysign", "copysign(x,y) = |x| * sign(y) via comparison with 0", lambda x, y: abs(S.L(x)) if S.L(y) >= 0 else -abs(S.L(x)))
 
     def _un(name, contract, fn):
         @stub(onp, name, contract)
@@ -372,8 +376,10 @@ def install():
                     out = _red(onp.sum(_map(x, _abs), axis=r), c - (c > r), _minl)
                 elif ord == -onp.inf:
                     out = _red(onp.sum(_map(x, _abs), axis=c), r - (r > c), _minl)
-                else:
+                elif ord in (2, -2, "nuc"):
                     raise Unsupported("matrix norm ord=%r has no closed form stub" % (ord,))
+                else:
+                    raise ValueError("Invalid norm order for matrices.")
                 if keepdims:
                     out = onp.expand_dims(onp.expand_dims(onp.asarray(out, dtype=object), min(r, c)), max(r, c))
                 if onp.shape(out) == ():
